@@ -99,3 +99,15 @@ let layout_mode inp outp =
 let () = register "layout" (function
   | inp :: outp :: _ -> layout_mode inp outp
   | _ -> failwith "layout: <in> <out>")
+
+(* nsmodel layout-keywords <out> — the multi-word keywords of the regenerated table (GenLexer.multi_table),
+   one per line: <TokName> <first word> <continuation words...>; the check builds its separator sweep
+   inside the keywords from this list *)
+let () = register "layout-keywords" (function
+  | outp :: _ ->
+      let oc = open_out outp in
+      List.iter (fun (w, alts) ->
+        List.iter (fun (ws, k) ->
+          Printf.fprintf oc "%s %s\n" (text (tok_name k)) (String.concat " " (List.map text (w :: ws)))) alts) multi_table;
+      close_out oc
+  | _ -> failwith "layout-keywords: <out>")
